@@ -227,7 +227,7 @@ def oracle_cases(rng, tier):
         # the solutions are time-translation invariant: a start time tmin != 0 must shift every curve alike
         tmin = rng.choice([0, 0, 2.5, -1.5, 3])
         return dict(tau=rng.choice([0.3, 0.7, 1.5]), gamma=rng.choice([0.5, 1.0]), rho=rng.choice([0.05, 0.1, 0.25]), tmin=tmin, tmax=tmin + 5.0, tcount=11,
-                    nodelist_perm=rng.choice([0, 1, 3]))
+                    nodelist_perm=rng.choice([1, 2, 3]))      # always an order that differs from G.nodes() (the default order is what every other case uses)
     # (a) SIR hierarchy on random degree distributions, uniform rho
     for i in range(40 if thorough else 3):
         degs = rng.choice([(1, 2, 2, 3, 3, 4, 5), (1, 1, 2, 6), (2, 3, 4), (1, 3, 3, 5, 7), (0, 1, 2, 3)])
